@@ -104,6 +104,7 @@ type State struct {
 	path           []string
 	segStart       string           // cut point where the current segment started: "entry" or "loop k"
 	segHeap        map[string]*Term // heap at the start of the current segment (for pre(...) in rows)
+	zeroStructs    map[string]*Term // zero value ids of struct types used in fresh arrays on this path
 	segAlloc       *Term            // allocation watermark at the start of the current segment (for newobj(...))
 	birth          map[string]*Term // heap map term (by key) -> allocation watermark when that version came into being (shared by all clones)
 	onceFacts      map[string]bool
@@ -126,6 +127,12 @@ func (st *State) clone() *State {
 		n.globals[k] = v
 	}
 	n.facts = append([]*Term(nil), st.facts...)
+	if st.zeroStructs != nil {
+		n.zeroStructs = make(map[string]*Term, len(st.zeroStructs))
+		for k, v := range st.zeroStructs {
+			n.zeroStructs[k] = v
+		}
+	}
 	if st.onceFacts != nil {
 		n.onceFacts = make(map[string]bool, len(st.onceFacts))
 		for k, v := range st.onceFacts {
